@@ -53,6 +53,10 @@ SAFE_TEXTS = ["", " ", "\n", "text ", "a b", "  x  ", "é", "12", "\n\n  ", "p "
 MODES = {"strict": Mode.STRICT, "warn": Mode.WARN, "lax": Mode.LAX}
 
 
+COPIED_FILTERS = ["join", "escape", "escape_once", "strip_html", "newline_to_br", "replace", "append", "prepend",
+                  "safe", "default", "truncate", "capitalize"]
+
+
 def make_mark_tag(label):
     class MarkNode(Node):
         def __init__(self, token):
@@ -165,6 +169,13 @@ def apply_mutation(env, label, m):
         env.add_filter("upcase", lambda v, _l=label: "%s<UP:%s>" % (v, _l))
     elif m[0] == "instance_flag":
         setattr(env, m[1], m[2])       # a feature flag set on the instance, not the class
+    elif m[0] == "copy_builtin_filters":
+        # filters taken from ANOTHER environment's register and added to this one: for the built-in
+        # functions that is a no-op, whatever that other environment's autoescape / tolerance are
+        donor = G.build_env({**m[1], "autoescape": not m[1]["autoescape"]}, None)
+        for name in COPIED_FILTERS:
+            if name in donor.filters:
+                env.add_filter(name, donor.filters[name])
 
 
 def tree_for(tree, recipe):
@@ -348,7 +359,8 @@ class C11:
                       "reach.interleaved_envs", "reach.implicit", "reach.custom_delims", "reach.dropped_env",
                       "reach.regex_meta_delims", "reach.letter_delims", "reach.thread_switch_inside_op",
                       "reach.async_batch", "reach.embedded_guest", "fault.env_construction_failed",
-                      "reach.cross_parse", "reach.shared_loader", "reach.factory_loader_equal_args"]
+                      "reach.cross_parse", "reach.shared_loader", "reach.factory_loader_equal_args",
+                      "reach.default_environment_customised"]
 
     def process_init(self):
         fork.init_zygote(evaluate_probe)
@@ -423,6 +435,8 @@ class C11:
                 recipe["template_comments"] = not recipe["template_comments"]
             if rng.chance(0.3):
                 recipe["comment_delims_always"] = not recipe.get("comment_delims_always")
+            if rng.chance(0.25):
+                recipe["autoescape"] = not recipe["autoescape"]
             specs.append({"label": "E%d" % i, "recipe": recipe, "delims": rng.randrange(len(delim_sets)),
                           "custom": {"filter": rng.chance(0.6), "tag": rng.chance(0.6)}, "partials": partials})
         datas = [G.gen_data(rng) for _ in range(rng.randint(1, 2))]
@@ -433,7 +447,7 @@ class C11:
             uid += 1
             k = rng.weighted([("new_env", 3), ("parse", 3), ("render", 8), ("mutate", 2), ("drop", 1), ("implicit", 1),
                               ("flood", 0.6), ("async_batch", 1.5), ("failed_env", 0.8), ("embed", 1.2),
-                              ("cross_parse", 1.2)])
+                              ("cross_parse", 1.2), ("default_template", 1.0)])
             op = {"op": k, "uid": uid, "spec": rng.randrange(len(specs))}
             if k in ("parse", "render"):
                 op["tree"] = rng.randrange(len(trees))
@@ -441,6 +455,7 @@ class C11:
             elif k == "mutate":
                 op["m"] = rng.choice([["add_filter", "mark2"], ["add_tag"], ["mode", rng.choice(["strict", "lax", "warn"])],
                                       ["override_filter"], ["add_filter", "mark"],
+                                      ["copy_builtin_filters", specs[op["spec"]]["recipe"]],
                                       ["instance_flag", rng.choice(G.FLAG_NAMES), rng.chance(0.5)]])
             elif k == "implicit":
                 op["tree"] = rng.randrange(len(trees))
@@ -458,6 +473,10 @@ class C11:
                 op["fail_at"] = rng.randint(1, 24)     # the add_tag call of the constructor that raises
             elif k == "embed":
                 op["guest"] = rng.randrange(len(specs))
+            elif k == "default_template":
+                op["tree"] = rng.randrange(len(trees))
+                op["data"] = rng.randrange(len(datas))
+                op["customise_default"] = rng.chance(0.6)
             elif k == "cross_parse":
                 # source text written for environment src_spec, handed to environment spec as it is
                 # (identical text seen by two configurations, e.g. differing only in comment markers)
@@ -671,17 +690,51 @@ class C11:
                 sj = cur_spec(j)
                 gsrc = G.render_source(guest_tree(sj), with_lc(delims_of(j), sj["recipe"]))
                 di = delims_of(i)
-                hsrc = "[%s render guest %s]" % (di["ts"], di["te"])
+                si_ = cur_spec(i)
+                # the host applies the same-named filters itself, before and after the guest
+                side = "%s 'w' | upcase %s" % (di["os"], di["oe"])
+                if si_["custom"].get("filter") or any(m[:2] == ["add_filter", "mark"] for m in si_["mutations"]):
+                    side += "%s 'v' | mark %s" % (di["os"], di["oe"])
+                hsrc = "[%s%s render guest %s%s]" % (side, di["ts"], di["te"], side)
                 guest = outcome(lambda: env_j.from_string(gsrc))
-                if guest[0] == "ok":
+                host_side = norm(outcome(lambda: env_i.from_string(side).render()))
+                if guest[0] == "ok" and host_side[0] == "ok":
                     alone = norm(outcome(lambda: guest[1].render()))
                     emb = norm(outcome(lambda: env_i.from_string(hsrc).render(guest=guest[1])))
                     bump(st, "reach.embedded_guest")
                     history.append([op["uid"], "embed", i, j, emb[0], alone[0]])
-                    if alone[0] == "ok" and emb != ("ok", "[" + alone[1] + "]"):
+                    if alone[0] == "ok" and emb != ("ok", "[" + host_side[1] + alone[1] + host_side[1] + "]"):
                         add("independence", "embedding:%s" % ("output" if emb[0] == "ok" else emb[1]),
                             {"op": op, "guest_alone": _brief(alone), "embedded_in_host": _brief(emb),
                              "guest_source": gsrc, "host_source": hsrc})
+            elif k == "default_template":
+                if nthreads:
+                    return        # customising a process-wide object: sequential histories only
+                # liquid.Template(source) with no options at all, while the application has customised
+                # liquid.DEFAULT_ENVIRONMENT (its documented use): the implicit environment behind
+                # Template() is another object and must not notice
+                plain = {**sc["specs"][i]["recipe"], "template_comments": False}
+                src = G.render_source(tree_for(sc["trees"][op["tree"]], plain), G.DEFAULT_DELIMS)
+                dspec = sc["datas"][op["data"]]
+                data = build_data(dspec, None)
+                denv = liquid.DEFAULT_ENVIRONMENT
+                saved = (dict(denv.filters), dict(denv.tags))
+                try:
+                    if op.get("customise_default"):
+                        denv.add_filter("upcase", lambda v: "%s<DEFAULT-ENV>" % v)
+                        denv.add_filter("mark", lambda v: "%s<DEFAULT-ENV>" % v)
+                        denv.add_tag(make_mark_tag("DEFAULT-ENV"))
+                        bump(st, "reach.default_environment_customised")
+                    got = norm(outcome(lambda: liquid.Template(src).render(**data)))
+                finally:
+                    denv.filters.clear(), denv.filters.update(saved[0])
+                    denv.tags.clear(), denv.tags.update(saved[1])
+                key = digest(("imp0", src, dspec))
+                probe = {"kind": "implicit", "source": src, "kwargs": {}, "canon_source": src, "canon_kwargs": {},
+                         "data": dspec}
+                history.append([op["uid"], "default_template", got[0], got[1] if got[0] == "err" else digest(got[1])])
+                res["probes"].append({"uid": op["uid"], "op": op, "kind": "implicit", "key": key, "probe": probe,
+                                      "got": got, "delims": G.DEFAULT_DELIMS})
             elif k == "cross_parse":
                 env = ensure(i)
                 note(i)
